@@ -106,6 +106,35 @@ def run(C, R):
                             R.fail('C10.R3', [m['path'], 'sender-value-taken-without-waking-sender'],
                                    '%s takes the value of a parked sender but does not return that sender\'s waker '
                                    '[%s]' % (m['path'], pc), where(F, e), {'trace': trace_summary(path)})
+            # R7: a future parks only when it cannot make progress: a receiver only with an empty buffer, no parked
+            # sender and an open channel; a sender only with a full buffer and an open channel
+            for path in paths:
+                if path.exit != 'return' or poll_variant(E, path) != 'Pending':
+                    continue
+                for e in path.events:
+                    if not (e['k'] == 'qop' and e['op'] == 'add_front' and e['node'][0][0] == 'P'):
+                        continue
+                    q = fields_of(e['queue'])[-1]
+                    open_ = const_of(E, path.facts, ('init', (('P', 'self'), 'is_closed'))) == 0
+                    calls = [c for c in path.events if c['k'] == 'call' and 'RingBuf' in c['callee']]
+                    if q == 'receive_waiters':
+                        empty = any(c['name'] == 'is_empty' and const_of(E, path.facts, c['ret']) == 1 for c in calls)
+                        no_sender = any(x['k'] == 'qop' and loc_endswith(x['queue'], 'send_waiters')
+                                        and x['op'] in ('remove_last', 'peek_last_mut', 'peek_last')
+                                        and x['node'] is None for x in path.events)
+                        ok = empty and no_sender and open_
+                        why = 'buffer empty=%s, no parked sender=%s, open=%s' % (empty, no_sender, open_)
+                    else:
+                        full = any(c['name'] == 'can_push' and const_of(E, path.facts, c['ret']) == 0 for c in calls)
+                        ok = full and open_
+                        why = 'buffer full=%s, open=%s' % (full, open_)
+                    if ok:
+                        R.ok('C10.R7', '%s|parks on %s: %s|%s' % (m['path'], q, why, path_cond(E, path)))
+                    else:
+                        R.fail('C10.R7', [m['path'], 'parks-although-it-could-proceed', q],
+                               '%s parks the future on %s although the path has not established that it cannot '
+                               'proceed (%s): nobody will wake it [%s]' % (m['path'], q, why, path_cond(E, path)),
+                               where(F, e), {'trace': trace_summary(path)})
             w3_waker_use(R, E, F, m, paths, 'C10.R5', strict=False)
             w4_pending_stores_waker(R, E, F, m, paths, 'C10.R6')
         w4_helper(R, E, F, 'C10.R6h')
